@@ -16,16 +16,38 @@
 SMOOTH_BEGIN_NAMESPACE
 
 namespace detail {
+
+/**
+ * @brief Taylor tail T_N(x) = sum_{k >= 0} (-x^2)^k / (2k + N)! evaluated from its power series.
+ *
+ * The tails are entire functions and for x^2 <= 10 the terms of the series decrease monotonically,
+ * so the series is accurate to rounding. The closed forms (cos(x) - 1 + ...) / x^N cancel
+ * catastrophically for small x (the error grows like eps / x^N) and are only used for x^2 > 10.
+ */
+template<int N, typename S>
+S trig_tail_series(const S & x2)
+{
+  constexpr int K = 18;  // x2^K * N! / (2K + N)! < 1e-22 for x2 <= 10
+  S t(1);
+  for (int k = K; k >= 1; --k) { t = S(1) - x2 * t / S((2 * k + N - 1) * (2 * k + N)); }
+  S fac(1);
+  for (int i = 2; i <= N; ++i) { fac *= S(i); }
+  return t / fac;
+}
+
+/// @brief Largest squared argument for which the tails are evaluated from their series.
+static constexpr double trig_series_x2 = 10;
+
 template<typename S>
 S cos_2(const S & x2)
 {
   using std::cos, std::sqrt;
 
-  if (x2 > S(eps2)) {
+  if (x2 > S(trig_series_x2)) {
     const S x = sqrt(x2);
     return (cos(x) - S(1)) / x2;
   } else {
-    return -S(1) / S(2) + x2 / S(24) - x2 * x2 / S(720);
+    return -trig_tail_series<2>(x2);
   }
 }
 
@@ -34,11 +56,11 @@ S sin_3(const S & x2)
 {
   using std::sin, std::sqrt;
 
-  if (x2 > S(eps2)) {
+  if (x2 > S(trig_series_x2)) {
     const S x = sqrt(x2);
     return (sin(x) - x) / (x2 * x);
   } else {
-    return -S(1) / S(6) + x2 / S(120) - x2 * x2 / S(5040);
+    return -trig_tail_series<3>(x2);
   }
 }
 
@@ -47,11 +69,11 @@ S cos_4(const S & x2)
 {
   using std::cos, std::sqrt;
 
-  if (x2 > S(eps2)) {
+  if (x2 > S(trig_series_x2)) {
     const S x = sqrt(x2);
     return (cos(x) - S(1) + x2 / S(2)) / (x2 * x2);
   } else {
-    return S(1) / S(24) - x2 / S(720) + (x2 * x2) / S(40320);
+    return trig_tail_series<4>(x2);
   }
 }
 
@@ -60,11 +82,11 @@ S sin_5(const S & x2)
 {
   using std::sin, std::sqrt;
 
-  if (x2 > S(eps2)) {
+  if (x2 > S(trig_series_x2)) {
     const S x = sqrt(x2);
-    return (sin(x) - x + x2 * x / 6) / (x2 * x2 * x);
+    return (sin(x) - x + x2 * x / S(6)) / (x2 * x2 * x);
   } else {
-    return S(1) / S(120) - x2 / S(5040) + x2 * x2 / S(362880);
+    return trig_tail_series<5>(x2);
   }
 }
 
@@ -74,11 +96,11 @@ S cos_6(const S & x2)
   using std::cos, std::sqrt;
 
   const S x4 = x2 * x2;
-  if (x2 > S(eps2)) {
+  if (x2 > S(trig_series_x2)) {
     const S x = sqrt(x2);
     return (cos(x) - S(1) + x2 / S(2) - x4 / S(24)) / (x4 * x2);
   } else {
-    return -S(1) / S(720) + x2 / S(40320) - x4 / S(3628800);
+    return -trig_tail_series<6>(x2);
   }
 }
 
